@@ -41,9 +41,50 @@ func VH_C05_vote_durable() {
 	vAssert(vAnd(r.term == dt, r.votedFor == dv), "memory-equals-disk")
 	vAssert(resp.getTerm() <= dt, "reply-term-not-above-durable")
 	vAssert(resp.getTerm() >= t0, "reply-term-not-below-previous")
+	// a request whose higher term is adopted always sends the node back to follower (a candidate that stayed candidate in
+	// the new term would count grants it collected for the old one)
+	// (the leader-known refusal deliberately ignores the request's term)
+	vAssert(vImp(vAnd(req.term > t0, res != leaderKnown), r.state == Follower), "V4-higher-term-request-reverts-to-follower")
 	// C17 safety half: leader known and no transfer permission => refused, nothing changes
 	if !req.transfer && r.leader != 0 && req.src != r.leader {
 		vAssert(vAnd(res == leaderKnown, vAnd(dt == t0, dv == v0)), "V3-leader-known-refusal")
+	}
+	vReach("end")
+}
+
+//verif:check C05,C10 stubs=env,valuefile,abslog reach=persist-failed,replied,end desc="a vote request whose term/vote cannot be persisted (the rename of the term file fails): whatever reply leaves the node carries a term no newer than the durable one and is not a grant, and the node's in-memory term and vote still equal the durable pair" bounds="all 64-bit values; one request through Raft.replyRPC; I/O error injected at the first rename"
+func VH_C05_vote_persist_failure() {
+	r := vMkRaft(vU64("nid"))
+	vSymTermState(r)
+	r.leader = vU64("leader")
+	r.state = State(vU8("state"))
+	vAssume(r.state == Follower || r.state == Candidate || r.state == Leader)
+	r.lastLogIndex, r.lastLogTerm = vU64("lastLogIndex"), vU64("lastLogTerm")
+	vAssume(r.nid != 0 && r.lastLogTerm <= r.term)
+	vAssume(vImp(r.state != Follower, r.votedFor == r.nid))
+	vAssume(vImp(r.state == Leader, r.leader == r.nid))
+	vAssume(vImp(r.state == Candidate, r.leader == 0))
+	req := &voteReq{req: req{vU64("req.term"), vU64("req.src")},
+		lastLogIndex: vU64("req.lastLogIndex"), lastLogTerm: vU64("req.lastLogTerm"), transfer: vBool("req.transfer")}
+	vAssume(req.src != 0 && req.src != r.nid)
+	t0, v0 := vDurable(".term")
+	vRenameFailAt = 1
+	c, _ := vMkConn(nil)
+	x := &rpc{req: req, conn: c, done: make(chan struct{})}
+	func() {
+		defer func() { _ = recover() }() // replyRPC re-panics with the storage error after publishing the reply
+		r.replyRPC(x)
+	}()
+	dt, dv := vDurable(".term")
+	if vRenameFailAt == 0 {
+		vReach("persist-failed")
+		vAssert(dt == t0 && dv == v0, "failed-rename-leaves-the-term-file")
+		vAssert(r.term == dt && r.votedFor == dv, "V5-memory-equals-disk-after-a-failed-persist")
+	}
+	if isClosed(x.done) && x.resp != nil {
+		vReach("replied")
+		vAssert(x.resp.getTerm() <= dt, "V5-reply-term-not-above-durable-when-persisting-fails")
+		vAssert(vImp(vRenameFailAt == 0, x.resp.getResult() != success), "V5-no-grant-without-a-durable-vote")
 	}
 	vReach("end")
 }
